@@ -186,4 +186,4 @@ from harness.c18 import OBLIGATIONS as _C18OBS, early_shutdown  # noqa: E402
 OBLIGATIONS += [dict(o, id='C04.7') for o in _C18OBS if o['id'] == 'C18.early']
 
 from harness.coupload import OB_PROTO, protocol_fixed  # noqa: E402
-OBLIGATIONS += [dict(OB_PROTO, id='C04.8', tier='thorough')]
+OBLIGATIONS += [dict(OB_PROTO, id='C04.8', tier='thorough', cases_thorough=OB_PROTO['cases'], splits_thorough=OB_PROTO['splits'])]
